@@ -189,7 +189,10 @@ def check_stats(case, result, rec, log, cap):
                 p = result.optimized_parameters.get(label)
                 e = rmse * np.sqrt(max(Cv[j, j], 0.0))
                 if p.non_negative:
-                    adm = [p.value * (np.exp(e) - 1.0), abs(p.value)]
+                    # mapped back from log space; the cap |value| is admitted only where the library documents it
+                    # (log-space error not below |log value|), with a 1e-9 band around the switch
+                    lv = abs(np.log(p.value)) if p.value > 0 else 0.0
+                    adm = ([p.value * (np.exp(e) - 1.0)] if e < lv * (1 + 1e-9) else []) + ([abs(p.value)] if e >= lv * (1 - 1e-9) else [])
                 else:
                     adm = [e]
                 if not any(rel(float(p.standard_error), a) < 1e-9 or abs(float(p.standard_error) - a) < 1e-300 for a in adm):
